@@ -304,14 +304,17 @@ class Check:
                 acc += weight(ev)
             if cur:
                 chunks.append(cur)
-        for ci, evs in enumerate(chunks):
-            if not evs:
-                continue
-            path = os.path.join(self.work, f"{module}-{label}-{ci}.ndjson")
+        counter = [0]
+
+        def run_chunk(evs):
+            counter[0] += 1
+            path = os.path.join(self.work, f"{module}-{label}-{counter[0]}.ndjson")
             with open(path, "w") as f:
                 for ev in evs:
                     f.write(json.dumps(ev, separators=(",", ":")) + "\n")
-            r = self.tlc(module, cfg, env={"TRACE_FILE": path}, workers=1, label=label, timeout=timeout)
+            return self.tlc(module, cfg, env={"TRACE_FILE": path}, workers=1, label=label, timeout=timeout, expect_ok=False)
+
+        def collect(evs, r):
             done = r.printed("DONE")
             if not done or done[-1][1] != len(evs):
                 raise MachineryError(f"trace run of {module} consumed {done} of {len(evs)} lines\n{r.out[-3000:]}")
@@ -326,6 +329,49 @@ class Check:
                 print(f"MODEL-DRIFT: {len(drift)} record(s) satisfy the property but differ from the as-built convention of the specification ({drift[0][3]})")
             self.cov["states"] += r.distinct
             self.cov["transitions"] += r.generated
+
+        def groups_of(evs):
+            gs = []
+            for ev in evs:
+                if gs and gs[-1][-1].get("tid") == ev.get("tid"):
+                    gs[-1].append(ev)
+                else:
+                    gs.append([ev])
+            return gs
+
+        outside = []
+
+        def settle(gs):
+            """TLC could not evaluate the trace specification on these traces: a recorded value lies outside the domain
+            the specification can interpret (an index that denotes nothing, a record of the wrong shape).  Such a trace
+            is not a behaviour of the specification - it is rejected with the clause OutsideSpecDomain.  Traces are
+            isolated by bisection; if most traces are affected the cause is the machinery, not a trace."""
+            evs = [e for g in gs for e in g]
+            r = run_chunk(evs)
+            if r.ok:
+                collect(evs, r)
+                return
+            if len(gs) == 1:
+                outside.append((gs[0], r.error))
+                return
+            settle(gs[:len(gs) // 2])
+            settle(gs[len(gs) // 2:])
+
+        for ci, evs in enumerate(chunks):
+            if not evs:
+                continue
+            r = run_chunk(evs)
+            if r.ok:
+                collect(evs, r)
+                continue
+            if "imeout" in (r.error or "") or "OutOfMemory" in r.out or "Parse" in (r.error or "") or "Semantic errors" in r.out or "***Parse" in r.out:
+                raise MachineryError(f"TLC failed on {module} {cfg}: {r.error}\n{r.out[-1500:]}")
+            settle(groups_of(evs))
+        ntids = len({e.get("tid") for e in events})
+        if outside and (len(outside) > 25 or (ntids >= 4 and 2 * len(outside) > ntids)):
+            raise MachineryError(f"TLC could not evaluate {module} on {len(outside)} of {ntids} traces: {outside[0][1]}")
+        for g, err in outside:
+            bad.append({"tid": g[0].get("tid"), "line": 0, "clause": "OutsideSpecDomain", "extra": [str(err)[:200]], "event": g[-1]})
         self.cov["traces_validated_against_impl"] += len({e.get("tid") for e in events})
         return bad
 
